@@ -1,11 +1,9 @@
 ---------------------------------- MODULE MC_PcztRoles ----------------------------------
-EXTENDS Naturals, TLC
-CONSTANTS HTCase, Inputs, Spends, HasShielded, V6, Keys, Vals, Flags0, MaxSig
+EXTENDS PcztRoles
+CONSTANT HTCase
 \* sighash types of the two inputs: ALL, NONE, SINGLE, with and without ANYONECANPAY (0x80)
 HTOf == CASE HTCase = 1 -> (1 :> 1) @@ (2 :> 131)      \* ALL, SINGLE|ANYONECANPAY
           [] HTCase = 2 -> (1 :> 2) @@ (2 :> 129)      \* NONE, ALL|ANYONECANPAY
           [] HTCase = 3 -> (1 :> 3) @@ (2 :> 130)      \* SINGLE, NONE|ANYONECANPAY
-VARIABLES cp, wr, nsig
-INSTANCE PcztRoles WITH HT <- HTOf
 ASSUME FrameIsEffectFree
 =============================================================================================
